@@ -202,6 +202,19 @@ Section Wrappers.
       end
     end.
 End Wrappers.
+Arguments DIdent {inst} r.
+Arguments DGzip {inst} r.
+Arguments DBrotli {inst} r.
+Arguments DZstd {inst} d.
+Arguments DDeflate {inst} r.
+Arguments DSnappy {inst} i.
+Arguments DSentinel {inst}.
+Arguments RNil {inst}.
+Arguments RZlib {inst} i.
+Arguments RSent {inst}.
+Arguments CIdent {winst} set.
+Arguments CLib {winst} w.
+Arguments CSentinel {winst}.
 
 (* ====================================================================== *)
 (* enum and name tables (the five places)                                 *)
